@@ -129,6 +129,13 @@ def pinv(ctx, rule="R06.3"):
 
 
 def run(ctx):
+    from .C05 import covariance_family, krige_state, layout, symmetric
+
+    # exactness at the data needs the whole system to be the kriging system of the current model: assembly and derived state (shared with C05)
+    layout(ctx, rule="R06.5")
+    symmetric(ctx, rule="R06.5")
+    covariance_family(ctx, rule="R06.5")
+    krige_state(ctx, rule="R06.6")
     clamp(ctx)
     exact_mode(ctx)
     pinv(ctx)
